@@ -419,3 +419,57 @@ def bind_args(fi: FuncInfo, call: ast.Call, method: bool = False) -> Dict[str, a
         if k.arg:
             out[k.arg] = k.value
     return out
+
+
+def local_values(fn: ast.AST) -> Dict[str, List[ast.AST]]:
+    """local name -> every value expression assigned to it in `fn` (plain `x = e` / `x: T = e`;
+    a name bound any other way — loop target, `with … as`, tuple unpacking — maps to [None])."""
+    out: Dict[str, List] = {}
+    for n in _walk_no_nested(fn):
+        if isinstance(n, ast.Assign):
+            for t in n.targets:
+                if isinstance(t, ast.Name):
+                    out.setdefault(t.id, []).append(n.value)
+                else:
+                    for x in ast.walk(t):
+                        if isinstance(x, ast.Name) and isinstance(x.ctx, ast.Store):
+                            out.setdefault(x.id, []).append(None)
+        elif isinstance(n, ast.AnnAssign) and isinstance(n.target, ast.Name) and n.value is not None:
+            out.setdefault(n.target.id, []).append(n.value)
+        elif isinstance(n, (ast.For, ast.AsyncFor, ast.comprehension)):
+            for x in ast.walk(n.target):
+                if isinstance(x, ast.Name):
+                    out.setdefault(x.id, []).append(None)
+        elif isinstance(n, (ast.With, ast.AsyncWith)):
+            for it in n.items:
+                if it.optional_vars is not None:
+                    for x in ast.walk(it.optional_vars):
+                        if isinstance(x, ast.Name):
+                            out.setdefault(x.id, []).append(None)
+        elif isinstance(n, ast.NamedExpr) and isinstance(n.target, ast.Name):
+            out.setdefault(n.target.id, []).append(n.value)
+    return out
+
+
+def resolved_call_name(fn: ast.AST, call: ast.Call, _cache: Dict[int, Dict] = {}) -> str:
+    """`call_name`, except that a bare local name bound only by `getattr(obj, "<name>"[, default])`
+    (the bound-method idiom `m = getattr(msg, "model_dump", None); m(...)`) reads as `obj.<name>`,
+    whatever the local is called."""
+    nm = call_name(call)
+    if not isinstance(call.func, ast.Name):
+        return nm
+    key = id(fn)
+    if key not in _cache or _cache[key][0] is not fn:
+        _cache[key] = (fn, local_values(fn))
+    vals = _cache[key][1].get(call.func.id)
+    if not vals:
+        return nm
+    names = set()
+    for v in vals:
+        if isinstance(v, ast.Call) and call_name(v) == "getattr" and len(v.args) >= 2 and isinstance(v.args[1], ast.Constant) and isinstance(v.args[1].value, str):
+            names.add(f"{ast.unparse(v.args[0])}.{v.args[1].value}")
+        elif isinstance(v, ast.Attribute):
+            names.add(ast.unparse(v))
+        else:
+            return nm
+    return names.pop() if len(names) == 1 else nm
